@@ -696,6 +696,17 @@ func init() {
 			randomSchedule(c, sc)
 			c.count("random.schedules", 1)
 		}
+		if !c.noEnum {
+			// fixed schedules that sit deep in the enumeration order. "Stale detach": lookup A is cancelled and is parked
+			// after its deadline arm fired; its notifier is delivered and unregistered; the name leaves the cache again
+			// (eviction, or a full update that omits it); lookup B misses and registers a NEW notifier for the same name;
+			// only then A runs its detach; the next delivery must still wake B.
+			aba := concScenario{names: []string{"c1", "c1"}, updates: [][][2]string{{{"c1", "c1#1"}}, {{"c1", "c1#2"}}}, cancels: []int{0}, evicts: []string{"c1"}}
+			runSchedule(c, aba, []string{"T0", "T0", "T0", "C0", "D", "Ec1", "T1", "T1", "T1", "T0", "D"}, true)
+			aba2 := concScenario{names: []string{"c1", "c1"}, updates: [][][2]string{{{"c1", "c1#1"}}, {{"other", "o#2"}}, {{"c1", "c1#3"}}}, cancels: []int{0}}
+			runSchedule(c, aba2, []string{"T0", "T0", "T0", "C0", "D", "D", "T1", "T1", "T1", "T0", "D"}, true)
+			c.count("fixed.schedules", 2)
+		}
 		for i, sc := range scen {
 			if c.noEnum {
 				break
